@@ -46,14 +46,15 @@ func init() {
 			"{ordinary, system} entity, with update payloads that try to flip the flag in both directions (with and without the Migrate marker) and field checkers that include or skip written fields; " +
 			"the same operations through a child store of that store (incl. a child-store create over an existing parent-only system entity from an ordinary context), and tolerant callers that ignore the error of a refused update / delete, carry on in the same transaction and commit; " +
 			"part (b): all 32 combinations of (widget flag, flags of two gadgets that reference it through a cascade-delete fk, context, DeleteById / DeleteWhere): from an ordinary context the delete may only succeed when no system entity is in its cascade closure, refused deletes change nothing; " +
+			"part (c): the constraint declared on a child store: update / delete / DeleteWhere of a protected child entity through the child and through the parent store, from both context kinds; " +
 			"model predicts accept/reject; after every transaction every entity is read back (flag, name, tags) and compared, refused transactions must leave the whole-file dump unchanged; " +
 			"non-trivial = distinct (op, context kind, stored flag, payload flag, migrate, checker shape, outcome, position in transaction) tuples",
 		Assumptions: []string{"createdAt/updatedAt timestamps are not compared"},
 		Plan: func(tier core.Tier, seed int64) int {
 			if tier == core.Thorough {
-				return 200000 + c16CascadeCases*4
+				return 200000 + c16CascadeCases*4 + c16ChildCases
 			}
-			return 480 + c16CascadeCases
+			return 480 + c16CascadeCases + c16ChildCases
 		},
 		Run: runC16,
 		Promises: func(core.Tier) map[string][]string {
@@ -71,6 +72,7 @@ func init() {
 			}
 			return map[string][]string{"combo": want, "flip": {"to-system:plainctx", "to-system:sysctx", "to-ordinary:sysctx", "to-system-migrate:plainctx", "to-system-migrate:sysctx", "child-create-over-system-parent:plainctx"},
 				"system_context_via": {"GetSystemContext", "NewSystemMutateContext", "GetSystemContext twice", "NewSystemMutateContext over a system context", "ordinary after UpdateContext", "the context the transaction function is handed"},
+				"child_constraint":   {"delete through the parent store from ordinary context", "delete through the child store from ordinary context", "update through the child store from ordinary context", "DeleteWhere through the parent store from ordinary context", "delete through the parent store from system context"},
 				"cascade":            {"any-system=true:ordinary:DeleteById", "any-system=true:ordinary:DeleteWhere", "any-system=true:system:DeleteById", "any-system=false:ordinary:DeleteById", "any-system=false:ordinary:DeleteWhere"},
 				"transaction_via":    {"Update", "Batch", "Update opened with a system context", "Batch opened with a system context"},
 				"tolerant":           {"update:plainctx:sysent", "patch:plainctx:sysent", "delete:plainctx:sysent"}}
@@ -82,6 +84,14 @@ func runC16(c *core.Ctx, idx int) {
 	nHist := 480
 	if c.Tier == core.Thorough {
 		nHist = 200000
+	}
+	nCascade := c16CascadeCases
+	if c.Tier == core.Thorough {
+		nCascade *= 4
+	}
+	if idx >= nHist+nCascade {
+		c16Child(c, idx-nHist-nCascade)
+		return
 	}
 	if idx >= nHist {
 		c16Cascade(c, (idx-nHist)%c16CascadeCases)
